@@ -67,6 +67,13 @@ func Exec(sc *Script) *Run {
 	return r
 }
 
+// Close releases the nodes' in-memory databases (each holds goroutines and buffers).
+func (r *Run) Close() {
+	for _, n := range r.Nodes {
+		n.DB.Close()
+	}
+}
+
 func (r *Run) name(b *block.Block, name int) {
 	r.Named[name] = b
 	r.NameOf[b.Header().ID()] = name
